@@ -83,18 +83,55 @@ def read64be (bs : List (BitVec 8)) : BitVec 64 :=
   be64 (bs.getD 0 0) (bs.getD 1 0) (bs.getD 2 0) (bs.getD 3 0)
        (bs.getD 4 0) (bs.getD 5 0) (bs.getD 6 0) (bs.getD 7 0)
 
+/-- fuel-bounded worker for `chunks` (structural recursion, so it evaluates under `decide`/`rfl`);
+    any `fuel ≥ xs.length` is enough. -/
+def chunksAux {α} (n : Nat) : Nat → List α → List (List α)
+  | 0, _ => []
+  | _ + 1, [] => []
+  | fuel + 1, x :: xs => (x :: xs).take n :: chunksAux n fuel ((x :: xs).drop n)
+
 /-- Split a list into chunks of `n` (last chunk may be short); `n = 0` yields `[]`. -/
 def chunks {α} (n : Nat) (xs : List α) : List (List α) :=
-  if _h : n = 0 then [] else
-  match _hxs : xs with
-  | [] => []
-  | _ :: _ => xs.take n :: chunks n (xs.drop n)
-termination_by xs.length
-decreasing_by
-  simp_wf
-  subst _hxs
-  simp only [List.length_cons]
-  omega
+  if n = 0 then [] else chunksAux n xs.length xs
+
+theorem chunksAux_fuel {α} {n : Nat} (hn : n ≠ 0) :
+    ∀ (fuel₁ fuel₂ : Nat) (xs : List α), xs.length ≤ fuel₁ → xs.length ≤ fuel₂ →
+      chunksAux n fuel₁ xs = chunksAux n fuel₂ xs := by
+  intro fuel₁
+  induction fuel₁ with
+  | zero =>
+    intro fuel₂ xs h₁ _
+    have : xs = [] := List.eq_nil_of_length_eq_zero (Nat.le_zero.mp h₁)
+    subst this
+    cases fuel₂ <;> rfl
+  | succ fuel₁ ih =>
+    intro fuel₂ xs h₁ h₂
+    cases xs with
+    | nil => cases fuel₂ <;> rfl
+    | cons x xs =>
+      cases fuel₂ with
+      | zero => simp at h₂
+      | succ fuel₂ =>
+        simp only [chunksAux]
+        have hl : ((x :: xs).drop n).length ≤ xs.length := by
+          simp only [List.length_drop, List.length_cons]; omega
+        simp only [List.length_cons] at h₁ h₂
+        rw [ih fuel₂ _ (by omega) (by omega)]
+
+@[simp] theorem chunks_zero {α} (xs : List α) : chunks 0 xs = [] := by simp [chunks]
+
+@[simp] theorem chunks_nil {α} (n : Nat) : chunks n ([] : List α) = [] := by
+  simp [chunks, chunksAux]
+
+/-- the defining equation of `chunks`. -/
+theorem chunks_of_ne_nil {α} {n : Nat} (hn : n ≠ 0) {xs : List α} (hxs : xs ≠ []) :
+    chunks n xs = xs.take n :: chunks n (xs.drop n) := by
+  cases xs with
+  | nil => exact absurd rfl hxs
+  | cons x xs =>
+    simp only [chunks, hn, if_false, List.length_cons, chunksAux]
+    rw [chunksAux_fuel hn xs.length ((x :: xs).drop n).length _
+      (by simp only [List.length_drop, List.length_cons]; omega) (Nat.le_refl _)]
 
 def xorBytes (a b : List (BitVec 8)) : List (BitVec 8) := List.zipWith (· ^^^ ·) a b
 
